@@ -18,6 +18,7 @@ const (
 	gKsPos    = "G:ks#pos"    // cipher.Stream id -> keystream bytes consumed
 	gChanClosed  = "G:chan#closed"  // channel id -> close(ch) has been executed
 	gChanDrained = "G:chan#drained" // channel id -> a range loop over ch has run to completion
+	gReleased    = "G:released"     // array / object ref -> handed back to a sync.Pool (must not be used any more)
 )
 
 func (v *Verifier) ghostHeap(st *State, key string) *Term {
@@ -31,6 +32,17 @@ func (v *Verifier) ghostHeap(st *State, key string) *Term {
 		s = ArraySort(IntSort, BVSort(64))
 	case gChanClosed, gChanDrained:
 		s = ArraySort(IntSort, BoolSort)
+	case gReleased:
+		s = ArraySort(IntSort, BoolSort)
+		_, existed := v.eng.C.decls["H0$"+key]
+		h := v.eng.heap(st, key, s)
+		if !existed {
+			// at function entry nothing the function can reach has been handed to a pool
+			c := v.eng.C
+			r := c.Bound("r", IntSort)
+			c.Axioms = append(c.Axioms, c.Forall([]*Term{r}, c.Not(c.Select(c.decls["H0$"+key], r))))
+		}
+		return h
 	case gBigBits:
 		s = ArraySort(IntSort, ArraySort(IntSort, BoolSort))
 	case gBigVal:
